@@ -71,6 +71,87 @@ MUT_ALPHABET = [
 ]
 
 
+# a fifth alphabet: a schema-level directive whose execution hook refuses requests without a token in the context; refused and
+# accepted requests on valid, invalid and syntactically broken documents alternate
+AUTH_SDL = """
+directive @auth on SCHEMA
+type Query { hello: String }
+schema @auth { query: Query }
+"""
+AUTH_ALPHABET = [
+    ("invalid-no-token", "{ hello unknownField }", {}),
+    ("invalid-token", "{ hello unknownField }", {"token": "t"}),
+    ("valid-no-token", "{ hello }", {}),
+    ("valid-token", "{ hello }", {"token": "t"}),
+    ("syntax-no-token", "{ hello ", {}),
+    ("syntax-token", "{ hello ", {"token": "t"}),
+    ("invalid-bytes-token", b"{ hello unknownField }", {"token": "t"}),
+]
+
+
+class AuthDirective:
+    async def on_schema_execution(self, directive_args, next_directive, schema, document, parsing_errors, operation_name, context,
+                                  variables, initial_value):
+        if not (context or {}).get("token"):
+            raise Exception("Unauthorized: no token in the context.")
+        return await next_directive(schema, document, parsing_errors, operation_name, context, variables, initial_value)
+
+
+def make_auth_engine(config):
+    from tartiflette import Directive, Resolver, create_engine
+    name = harness.fresh_name("c16a")
+    Directive("auth", schema_name=name)(AuthDirective())
+
+    @Resolver("Query.hello", schema_name=name)
+    async def hello(parent, args, ctx, info):
+        return "world"
+
+    kw = {"query_cache_decorator": None} if config == "disabled" else {"query_cache_decorator": lru_cache(maxsize=1)} if config == "lru1" else {}
+    return harness.run(create_engine(AUTH_SDL, schema_name=name, **kw)), name
+
+
+def ask_auth(engine, letter):
+    try:
+        return norm(harness.run(engine.execute(letter[1], context=dict(letter[2]))))
+    except Exception as e:  # noqa
+        return "RAISED " + repr(e)
+
+
+def run_auth(tier, first):
+    out = {"counts": {"histories": 0, "requests": 0, "nontrivial": 0}, "tables": {}, "sets": {}, "samples": [], "violations": [],
+           "machinery": []}
+    ref = {}
+    for letter in AUTH_ALPHABET:
+        eng, name = make_auth_engine("disabled")
+        ref[letter[0]] = ask_auth(eng, letter)
+        drop(name)
+    if "world" not in ref["valid-token"] or "Unauthorized" not in ref["valid-no-token"]:
+        out["machinery"].append("the auth engine does not behave as intended: %r" % (ref,))
+    depth = 3 if tier == "quick" else 4
+    for hist in itertools.product(range(len(AUTH_ALPHABET)), repeat=depth):
+        if hist[0] != first:
+            continue
+        for config in ("default", "lru1", "disabled"):
+            eng, name = make_auth_engine(config)
+            for pos, li in enumerate(hist):
+                letter = AUTH_ALPHABET[li]
+                got = ask_auth(eng, letter)
+                out["counts"]["requests"] += 1
+                if got != ref[letter[0]]:
+                    labels = [AUTH_ALPHABET[i][0] for i in hist[:pos + 1]]
+                    out["violations"].append({
+                        "signature": "response-changed-by-history|schema-hook-refusals|%s" % letter[0],
+                        "summary": "cache=%s history=%r (schema-level @auth hook): response #%d is %s but a fresh engine answers %s" % (
+                            config, labels, pos, got[:500], ref[letter[0]][:500]),
+                        "replay": {"auth_history": list(hist[:pos + 1]), "config": config}})
+                    break
+            out["counts"]["histories"] += 1
+            drop(name)
+    if first == 0:
+        out["samples"].append({"schema_hook_alphabet": [l[0] for l in AUTH_ALPHABET], "length": depth})
+    return out
+
+
 def _scribble(v):
     if isinstance(v, dict):
         for x in list(v.values()):
@@ -262,12 +343,14 @@ def reference():
 
 def shards(tier, seed):
     n = len(ALPHABET)
-    return [(a, b, tier) for a in range(n) for b in range(n)] + [("shared", tier), ("variables", tier)] + [("mutating", tier, k) for k in range(len(MUT_ALPHABET))]
+    return [(a, b, tier) for a in range(n) for b in range(n)] + [("shared", tier), ("variables", tier)] + [("auth", tier, k) for k in range(len(AUTH_ALPHABET))] + [("mutating", tier, k) for k in range(len(MUT_ALPHABET))]
 
 
 def run_shard(item):
     if item[0] == "shared":
         return run_shared(item[1])
+    if item[0] == "auth":
+        return run_auth(item[1], item[2])
     if item[0] == "variables":
         return run_shared_variables(item[1])
     if item[0] == "mutating":
@@ -354,7 +437,8 @@ def finish(agg, tier):
                 "(key-exposing cache) with at least one cache hit AND one eviction. Plus all length-3 histories over 4 requests raising one shared "
                 "exception object, and all length-%d histories over %d requests whose resolver modifies the argument values it received "
                 "(SDL default, literal, nested literal, variable default, variable value, variable inside a literal), cache on / off, "
-                "and over %d requests that are all given ONE variables object"
+                "and over %d requests that are all given ONE variables object; and all length-3 histories over 7 requests (valid / invalid / broken "
+                "document x with / without token) on an engine whose schema-level directive refuses requests without a token"
                 % (DEPTH[tier], len(ALPHABET), len(CONFIGS), 3 if tier == "quick" else 4, len(MUT_ALPHABET), len(VARS_ALPHABET)),
         "distinct_cache_states_observed": len(agg.sets.get("spy_states", ())),
         "distinct_cache_state_request_transitions": len(agg.sets.get("spy_transitions", ())),
@@ -365,6 +449,9 @@ def finish(agg, tier):
 def replay(rec):
     r = rec["replay"]
     ref = reference()
+    if "auth_history" in r:
+        out = run_auth("quick", r["auth_history"][0])["violations"]
+        return [v for v in out if v["replay"]["auth_history"] == r["auth_history"] and v["replay"]["config"] == r["config"]][:1]
     if "variables_history" in r:
         out = run_shared_variables("quick")["violations"]
         return [v for v in out if v["replay"]["variables_history"] == r["variables_history"] and v["replay"]["config"] == r["config"]][:1]
